@@ -25,10 +25,10 @@
 (*                                replace look up the boundary grid of a     *)
 (*                                0-d subdomain -> KeyError after the        *)
 (*                                container was modified                    *)
-(*    AtomicAddInterface = FALSE  add_interface as it is today: the data     *)
-(*                                dictionary is stored before the            *)
+(*    AtomicAddInterface = FALSE  the code before fix 3b4bfadde: add_interface *)
+(*                                stores the data dictionary before the      *)
 (*                                co-dimension check raises                 *)
-(* With both TRUE (the intended mechanism) TLC checks exhaustively that      *)
+(* With both TRUE (the code as it is) TLC checks exhaustively that           *)
 (* what the public API would answer (ObsOf) satisfies every C24 clause of    *)
 (* ref/MdGridRef.tla against the reference state `ref` (Design); with one    *)
 (* of them FALSE the same invariant must fail (vacuity check).               *)
